@@ -27,7 +27,7 @@ constexpr int kMaxSteps = 5;
 constexpr int kMaxGates = 8;
 constexpr int kMaxExits = 3;
 
-enum StepKind { ST_GATE, ST_TASK, ST_SCHEDULE, ST_THROW, ST_DONE, ST_OBJ };  // ST_OBJ: await a task<CVal>; arg=1: constructing its result throws
+enum StepKind { ST_GATE, ST_TASK, ST_SCHEDULE, ST_THROW, ST_DONE, ST_OBJ, ST_AWAIT };  // ST_AWAIT: a plain awaitable (not a sender) whose await_suspend returns bool; arg: 0 does not suspend, 1 suspends and is resumed by a foreign thread (possibly before await_suspend returns)  // ST_OBJ: await a task<CVal>; arg=1: constructing its result throws
 
 struct Step {
   int kind = ST_GATE;
@@ -38,6 +38,7 @@ struct TaskPlan {
   int nsteps = 0;
   Step steps[kMaxSteps];
   int nexits = 0;
+  int exit_gate[kMaxExits] = {-1, -1, -1};  // an exit action may await a gate (completed inline or by a foreign thread)
 };
 struct task_error {
   long code;
@@ -64,8 +65,29 @@ struct CWorld {
   int stop_mode = 0, stop_gate = 0, stop_yields = 0;
   volatile int finished = 0;
   int root_ctx = 1;
+  int nbody_gates = 0;
+  // raw-awaitable hand-off: a resumer thread resumes published coroutine handles
+  std::coroutine_handle<> pending[8];
+  volatile int npending = 0, nresumed = 0;
+  int await_window = 0;
 };
 CWorld* g_w = nullptr;
+
+struct HandoffAwaitable {
+  CWorld* w;
+  int mode;
+  long v;
+  bool await_ready() const noexcept { return false; }
+  bool await_suspend(std::coroutine_handle<> h) noexcept {
+    if (mode == 0) return false;  // resumes at once
+    CWorld* ww = w;               // (this awaitable lives in the coroutine frame: once the handle is published the frame may run to completion and die)
+    int window;
+    { usim::np_scope np; window = ww->await_window; ww->pending[ww->npending] = h; ww->npending = ww->npending + 1; }
+    yields(window);               // the resumer may resume the coroutine before await_suspend returns
+    return true;
+  }
+  long await_resume() const noexcept { return v; }
+};
 
 // a tracked class-type task result: construction on live storage, destruction of storage that holds none
 struct CValReg { hvec<const void*> live; };
@@ -121,10 +143,17 @@ unifex::task<long> run_task(CWorld* w, int t, int ctx_now) {
   Local l1(t * 10 + 1);
   note_resume(w, t, -1, ctx_now);
   for (int k = 0; k < p.nexits; ++k) {
-    co_await unifex::at_coroutine_exit([w, t, k]() -> unifex::task<void> {
+    co_await unifex::at_coroutine_exit([w, t, k, ctx_now]() -> unifex::task<void> {
       {
         usim::np_scope np;
         w->exits.push_back(ExitRec{t, k, seq(), usim_here(), std::this_thread::get_id()});
+      }
+      int g = w->tasks[t].exit_gate[k];
+      if (g >= 0) {
+        (void)co_await gate_sender{&w->gates[g]};
+        // the cleanup action inherited the registering task's scheduler: it resumes there, not where the gate was opened
+        note_resume(w, t, 100 + k, ctx_now);
+        usim_probe("exit action awaited a gate");
       }
       co_return;
     });
@@ -146,6 +175,10 @@ unifex::task<long> run_task(CWorld* w, int t, int ctx_now) {
         case ST_OBJ: {
           CVal v = co_await obj_task(300 + t * 10 + s, st.arg == 1);
           co_return v.id;
+        }
+        case ST_AWAIT: {
+          long v = co_await HandoffAwaitable{w, st.arg, 400 + t * 10 + s};
+          co_return v;
         }
         case ST_THROW: throw task_error{7000 + t * 10 + s};
         case ST_DONE: co_await unifex::just_done(); co_return 0;
@@ -205,6 +238,7 @@ MRes model_task(CWorld* w, int t, int* ctx_now) {
       case ST_SCHEDULE: *ctx_now = st.arg; continue;
       case ST_THROW: r = MRes{CH_ERROR, 7000 + t * 10 + s}; break;
       case ST_OBJ: r = st.arg == 1 ? MRes{CH_ERROR, 7300 + t * 10 + s} : MRes{CH_VALUE, 300 + t * 10 + s}; break;
+      case ST_AWAIT: r = MRes{CH_VALUE, 400 + t * 10 + s}; break;
       case ST_DONE: r = MRes{CH_DONE, 0}; break;
     }
     if (r.ch == CH_DONE) { *ctx_now = entry_ctx; return r; }  // done is not catchable: unwinds
@@ -235,7 +269,12 @@ void body_coro(void*) {
       if (k < 5 && w->ngates < kMaxGates) { st.kind = ST_GATE; st.arg = w->ngates++; }
       else if (k < 7 && t + 1 < w->ntasks) { st.kind = ST_TASK; st.arg = t + 1 + draw(w->ntasks - t - 1); }
       else if (k < 8) { st.kind = ST_SCHEDULE; st.arg = 1 + draw(2); }
-      else if (k < 9) { int q = draw(4); st.kind = q == 0 ? ST_THROW : q == 1 ? ST_DONE : ST_OBJ; if (st.kind == ST_OBJ) st.arg = draw(3) == 0; }
+      else if (k < 9) {
+        int q = draw(6);
+        st.kind = q == 0 ? ST_THROW : q == 1 ? ST_DONE : q < 4 ? ST_OBJ : ST_AWAIT;
+        if (st.kind == ST_OBJ) st.arg = draw(3) == 0;
+        if (st.kind == ST_AWAIT) st.arg = draw(3) == 0 ? 0 : 1;
+      }
       else if (w->ngates < kMaxGates) { st.kind = ST_GATE; st.arg = w->ngates++; }
       else { st.kind = ST_SCHEDULE; st.arg = 1 + draw(2); }
       st.guarded = draw(4) == 0;
@@ -250,6 +289,14 @@ void body_coro(void*) {
         if (st.kind == ST_TASK) { if (used[st.arg]) { st.kind = ST_SCHEDULE; st.arg = 1 + (s & 1); } else used[st.arg] = true; }
       }
   }
+  w->nbody_gates = w->ngates;
+  for (int t = 0; t < w->ntasks; ++t) {
+    bool hops = false;
+    for (int s = 0; s < w->tasks[t].nsteps; ++s) hops |= w->tasks[t].steps[s].kind == ST_SCHEDULE;
+    for (int k = 0; k < w->tasks[t].nexits; ++k)
+      if (!hops && w->ngates < kMaxGates && draw(3) == 0) w->tasks[t].exit_gate[k] = w->ngates++;
+  }
+  w->await_window = draw_small(8);
   for (int g = 0; g < w->ngates; ++g) {
     Gate& G = w->gates[g];
     G.id = g;
@@ -259,11 +306,12 @@ void body_coro(void*) {
     G.mode = draw(3) == 0 ? 0 : 1;
     G.on_stop = draw(4) == 0 ? 0 : 1;
   }
+  for (int g = w->nbody_gates; g < w->ngates; ++g) { w->gates[g].outcome = CH_VALUE; w->gates[g].on_stop = 0; }  // gates awaited by exit actions always deliver a value
   w->root_ctx = 1 + draw(2);
   int sm = draw(8);
   w->stop_mode = sm < 5 ? 0 : sm < 6 ? 1 : 2;  // 0 none, 1 before start, 2 when gate `stop_gate` is armed
-  w->stop_gate = w->ngates ? draw(w->ngates) : 0;
-  if (!w->ngates && w->stop_mode == 2) w->stop_mode = 0;
+  w->stop_gate = w->nbody_gates ? draw(w->nbody_gates) : 0;
+  if (!w->nbody_gates && w->stop_mode == 2) w->stop_mode = 0;
   w->stop_yields = draw_small(10);
   if (w->stop_mode == 2 && draw(2)) {
     // this gate is completed by nothing but a stop request: if the request on the awaiting receiver never
@@ -281,7 +329,7 @@ void body_coro(void*) {
       o += snprintf(buf + o, sizeof buf - o, "T%d[x%d:", t, w->tasks[t].nexits);
       for (int s = 0; s < w->tasks[t].nsteps; ++s) {
         Step& st = w->tasks[t].steps[s];
-        const char* nm = st.kind == ST_GATE ? "g" : st.kind == ST_TASK ? "t" : st.kind == ST_SCHEDULE ? "s" : st.kind == ST_THROW ? "throw" : st.kind == ST_OBJ ? "obj" : "done";
+        const char* nm = st.kind == ST_GATE ? "g" : st.kind == ST_TASK ? "t" : st.kind == ST_SCHEDULE ? "s" : st.kind == ST_THROW ? "throw" : st.kind == ST_OBJ ? "obj" : st.kind == ST_AWAIT ? "await" : "done";
         o += snprintf(buf + o, sizeof buf - o, "%s%s%d%s", s ? "," : "", nm, st.arg, st.guarded ? "?" : "");
         if (st.kind == ST_GATE) o += snprintf(buf + o, sizeof buf - o, "(%s%s)", ch_name(w->gates[st.arg].outcome), w->gates[st.arg].mode ? "" : "!");
       }
@@ -296,6 +344,17 @@ void body_coro(void*) {
 
   gate_opener opener{w->gates, kMaxGates, &w->finished, draw_small(6)};
   std::thread opener_thr([&opener] { opener.run(); });
+  std::thread resumer([w] {
+    for (;;) {
+      struct P { CWorld* w; static int pred(void* p) { auto* w = ((P*)p)->w; return w->nresumed < w->npending || w->finished; } } p{w};
+      usim_wait(&P::pred, &p);
+      if (w->nresumed >= w->npending) return;
+      std::coroutine_handle<> h;
+      { usim::np_scope np; h = w->pending[w->nresumed]; w->nresumed = w->nresumed + 1; }
+      usim_probe("raw awaitable resumed by a foreign thread");
+      h.resume();
+    }
+  });
   std::thread stopper([w] {
     if (w->stop_mode != 2) return;
     struct P { CWorld* w; static int pred(void* p) { auto* w = ((P*)p)->w; return w->gates[w->stop_gate].armed || w->gates[w->stop_gate].claimed || w->rec.flag; } } p{w};
@@ -313,6 +372,7 @@ void body_coro(void*) {
     stopper.join();
     w->finished = 1;
     opener_thr.join();
+    resumer.join();
     op.destroy();  // destroys the coroutine frames still owned by the operation
   }
   for (int i = 1; i <= 2; ++i) w->ctx[i].destroy();
